@@ -93,4 +93,16 @@ def HSched.nextAndPush (s : HSched) (wf : Nat → Rat) : Option (Nat × HSched) 
                   now := Edf.nextTime e.deadline
                   clock := s.clock + 1 })
 
+/-- the `Add` phase of `refresh` on the heap scheduler. -/
+def HSched.initWith (wf : Nat → Rat) (n : Nat) : HSched :=
+  (List.range n).foldl (fun s i => s.add i (wf i)) HSched.empty
+
+/-- `k` consecutive `NextAndPush` calls; the served items. -/
+def HSched.run (s : HSched) (wf : Nat → Rat) : Nat → List Nat × HSched
+  | 0 => ([], s)
+  | k + 1 =>
+    match s.nextAndPush wf with
+    | none => ([], s)
+    | some (i, s') => let (r, s'') := HSched.run s' wf k; (i :: r, s'')
+
 end MosnVerif.Model.EdfHeap
